@@ -376,3 +376,94 @@ M2('c07-asgi-exhaust-helper-without-clamp', 'C07', 'R4', [
     {'file': A, 'old': _EXHAUST_CLAMP + _EXHAUST_UPDATES, 'new': "                self._consume(num_bytes)\n"},
     {'file': A, 'old': "    async def exhaust(self) -> None:\n",
      'new': "    def _consume(self, n: int) -> None:\n        self._bytes_remaining -= n\n        self._pos += n\n\n    async def exhaust(self) -> None:\n"}])
+
+# ------------------------------------------------------------------ wave 7
+# R6 (s7-c07-1): the budget handed to the WSGI wrapper is the declared Content-Length on EVERY path; a constant only
+# stands in for an invalid header (stored in / surviving only through the HTTPInvalidHeader handler)
+_R = 'falcon/request.py'
+_WRAP_RET = "        return BoundedStream(self.env['wsgi.input'], content_length)\n"
+M('c07-wsgi-zero-budget-for-auto-parsed-forms', 'C07', 'R6', _R, _WRAP_RET,
+  """        if (
+            self.options._auto_parse_form_urlencoded
+            and self.content_type is not None
+            and 'application/x-www-form-urlencoded' in self.content_type
+        ):
+            content_length = 0
+
+""" + _WRAP_RET)
+M('c07-wsgi-zero-budget-for-bodyless-methods', 'C07', 'R6', _R, _WRAP_RET,
+  "        if self.method in ('GET', 'HEAD', 'OPTIONS'):\n            content_length = 0\n" + _WRAP_RET)
+M('c07-wsgi-conditional-budget-expression', 'C07', 'R6', _R, _WRAP_RET,
+  "        return BoundedStream(self.env['wsgi.input'], 0 if self.method == 'GET' else content_length)\n")
+
+# R4 (s7-c07-2): the position / budget accounting of a chunk is complete BEFORE the chunk is yielded
+_ITER_ACCT = """                    if next_chunk_len <= self._bytes_remaining:
+                        self._bytes_remaining -= next_chunk_len
+                        self._pos += next_chunk_len
+                    else:
+                        # NOTE(kgriffs): We received more data than expected,
+                        #   so truncate to the expected length.
+                        next_chunk = next_chunk[: self._bytes_remaining]
+                        self._pos += self._bytes_remaining
+                        self._bytes_remaining = 0
+
+                    yield next_chunk
+"""
+M('c07-asgi-iter-position-after-yield', 'C07', 'R4', A, _ITER_ACCT,
+  """                    if len(next_chunk) > self._bytes_remaining:
+                        # NOTE(kgriffs): We received more data than expected,
+                        #   so truncate to the expected length.
+                        next_chunk = next_chunk[: self._bytes_remaining]
+
+                    next_chunk_len = len(next_chunk)
+                    self._bytes_remaining -= next_chunk_len
+
+                    yield next_chunk
+                    self._pos += next_chunk_len
+""")
+M('c07-asgi-iter-budget-after-yield', 'C07', 'R4', A, _ITER_ACCT,
+  """                    if next_chunk_len > self._bytes_remaining:
+                        next_chunk = next_chunk[: self._bytes_remaining]
+                        next_chunk_len = len(next_chunk)
+
+                    self._pos += next_chunk_len
+                    yield next_chunk
+                    self._bytes_remaining -= next_chunk_len
+""")
+M('c07-asgi-iter-buffer-position-after-yield', 'C07', 'R4', A,
+  "            self._pos += len(next_chunk)\n            yield next_chunk\n",
+  "            yield next_chunk\n            self._pos += len(next_chunk)\n")
+
+# R3 (s7-c07-3): no loss -- a read result is handed on (or provably empty) on every normal path
+_RL_LOOP = """        while total < hint:
+            line = self.readline()
+            if not line:
+                break
+
+"""
+M('c07-wsgi-readlines-sentinel-iter-drops-line', 'C07', 'R3', W, _RL_LOOP,
+  """        for line in iter(self.readline, b''):
+            if total >= hint:
+                break
+
+""")
+M('c07-wsgi-readlines-drops-overshooting-line', 'C07', 'R3', W,
+  "            lines.append(line)\n            total += len(line)\n",
+  "            if total + len(line) > hint and lines:\n                break\n            lines.append(line)\n            total += len(line)\n")
+M('c07-wsgi-next-skips-blank-lines', 'C07', 'R3', W,
+  """        line = self.readline()
+        if not line:
+            raise StopIteration
+
+        return line
+""", """        line = self.readline()
+        if line in (b'\\n', b'\\r\\n'):
+            line = self.readline()
+        if not line:
+            raise StopIteration
+
+        return line
+""")
+M('c07-wsgi-readlines-peeks-and-discards', 'C07', 'R3', W,
+  "        lines: List[bytes] = []\n        total = 0\n",
+  "        lines: List[bytes] = []\n        total = 0\n        self.readline(0 if hint else 1)\n")
